@@ -6,7 +6,12 @@
 #define hs_hash32 real_hs_hash32
 #include "hashtable.h"
 #undef hs_hash32
+#ifdef VERIF_HASH_CONST
+/* every key of this unit's tables has the same home bucket: all entries collide (C03.*_colliding_ids) */
+static inline uint32_t hs_hash32(uint32_t key, unsigned int order) { (void)key; return (uint32_t)VERIF_HASH_CONST & ((1u << order) - 1u); }
+#else
 static inline uint32_t hs_hash32(uint32_t key, unsigned int order) { return key & ((1u << order) - 1u); }
+#endif
 
 /* hashtable.h clears slots and values with memset(); CBMC's memset on a part of a heap array leaves a byte-level
  * update that is never folded back into fields, so every later lookup forks. Same effect, typed: */
